@@ -84,6 +84,43 @@ Theorem C12_source_shape :
 Proof. exact source_shape. Qed.
 Print Assumptions C12_source_shape.
 
+(* Histories of pooled decoders (decodePostings / Next / close on several streamed decoders
+   sharing decodedBufPool). close() is NOT idempotent in the code — it puts &it.buf whenever
+   it.buf != nil and assigns nothing (C12_close_shape) — so the callers' discipline "close a
+   decoder at most once and do not use it afterwards" is what the pool relies on; steps outside
+   it are rejected by hp_step. For EVERY such history and whatever buffers sync.Pool hands out:
+   a decode buffer is in the pool at most once and never while a live decoder holds it — so no
+   two live decoders share a backing array and each decodes its own list (C12_roundtrip). *)
+Theorem C12_pool_single_put : forall evs st, hp_run false hp_init evs = Some st ->
+  NoDup (hp_pool st ++ live_bufs (hp_decs st)).
+Proof. exact pool_single_put. Qed.
+Print Assumptions C12_pool_single_put.
+
+(* a Next that calls close() itself at the end of the input, then the caller's close(): the buffer
+   is pooled twice and the next two live decoders hold the same buffer *)
+Theorem C12_pool_early_close_refuted :
+  option_map hp_pool (hp_run true hp_init [(HNew 0, None); (HExhaust 0, Some 0); (HClose 0, None)]) = Some [0; 0] /\
+  option_map (fun st => live_bufs (hp_decs st))
+    (hp_run true hp_init [(HNew 0, None); (HExhaust 0, Some 0); (HClose 0, None);
+                          (HNew 1, None); (HNew 2, None); (HNext 1 5, Some 0); (HNext 2 5, Some 0)]) = Some [0; 0] /\
+  option_map hp_pool (hp_run false hp_init [(HNew 0, None); (HExhaust 0, Some 0); (HClose 0, None)]) = Some [0].
+Proof. exact pool_early_close_refuted. Qed.
+Print Assumptions C12_pool_early_close_refuted.
+
+(* the predicate of history cases holds of the model's outputs: every decoder returns the
+   beginning of its own list *)
+Theorem C12_history_pred : forall lists evs,
+  pred_ok (CHist lists evs (map (fun x => (hd_read x, true, false))
+     (hout (map (fun t : N * list N * N => big_list (fst (fst t)) (snd (fst t)) (snd t)) lists) evs))) = true.
+Proof. exact hist_case_pred. Qed.
+Print Assumptions C12_history_pred.
+
+Theorem C12_close_shape :
+  sdCloseEvents = [("if", "it.buf == nil"); ("return", ""); ("endif", ""); ("if", "it.disablePooling"); ("return", "");
+                   ("endif", ""); ("call", "decodedBufPool.Put")]%string /\ sdCloseAssigns = []%string.
+Proof. exact close_shape. Qed.
+Print Assumptions C12_close_shape.
+
 (* Non-vacuity: a valid list with a duplicate, a 2-byte and a 10-byte difference;
    its encoding; a chunking that cuts inside varints; a program whose Seek skips. *)
 Example C12_nonvacuous :
